@@ -15,7 +15,7 @@ from ..program import Interp
 from ..streams import Stream, digest, h64
 
 SELFTEST_ARG = {"pid": "C13", "tier": "quick", "light": True}
-TIERS = {"quick": (200, 36), "thorough": (6000, 1700)}
+TIERS = {"quick": (170, 32), "thorough": (6000, 1700)}
 METHODS = ["SLSQP", "L-BFGS-B", "Nelder-Mead", "Powell"]
 FAULTS = ["real", "stall", "wander", "wander_after_real", "degenerate"]
 
